@@ -187,14 +187,14 @@ func normLog(l [][]any) [][]any {
 
 // splits enumerates how a chain of n-1 middleware is divided: g global (g1 before the route is registered, the rest
 // after), grp group middleware (outer/inner), the rest route middleware (variadic / later Route.Use).
-type chainSplit struct{ gBefore, gAfter, outer, inner, inUse, variadic, later int }
+type chainSplit struct{ gBefore, gAfter, outer, outUse, inner, inUse, variadic, later int }
 
 func allSplits(mw int) []chainSplit {
 	out := []chainSplit{}
 	var rec func(parts []int, left int)
 	rec = func(parts []int, left int) {
-		if len(parts) == 6 {
-			out = append(out, chainSplit{parts[0], parts[1], parts[2], parts[3], parts[4], parts[5], left})
+		if len(parts) == 7 {
+			out = append(out, chainSplit{parts[0], parts[1], parts[2], parts[3], parts[4], parts[5], parts[6], left})
 			return
 		}
 		for k := 0; k <= left; k++ {
@@ -206,11 +206,11 @@ func allSplits(mw int) []chainSplit {
 }
 
 func randSplit(rng *rand.Rand, mw int) chainSplit {
-	cuts := make([]int, 7)
+	cuts := make([]int, 8)
 	for i := 0; i < mw; i++ {
-		cuts[rng.Intn(7)]++
+		cuts[rng.Intn(8)]++
 	}
-	return chainSplit{cuts[0], cuts[1], cuts[2], cuts[3], cuts[4], cuts[5], cuts[6]}
+	return chainSplit{cuts[0], cuts[1], cuts[2], cuts[3], cuts[4], cuts[5], cuts[6], cuts[7]}
 }
 
 var chainRng = rand.New(rand.NewSource(seed()))
@@ -318,11 +318,23 @@ func chainReplay(s *Summary, raw json.RawMessage) {
 		s.sample(map[string]any{"chain": c.Chain, "expected_log": c.Log, "splits": len(splits)})
 	}
 	for _, sp := range splits {
-		chainRunOnce(s, &c, sp)
+		outerPrefix := "/g"
+		if (sp.gBefore+sp.later)%3 == 2 { // sometimes the outer group has the root prefix: it is a group all the same
+			outerPrefix = "/"
+		}
+		chainRunOnce(s, &c, sp, outerPrefix)
+		if c.Kind == "route" && sp.outUse > 0 && chainRunHook == nil {
+			// Use() directly inside a TOP-LEVEL group whose prefix is the root: still the group's middleware, not global
+			for _, op := range []string{"/g", "/", ""} {
+				if op != outerPrefix {
+					chainRunOnce(s, &c, sp, op)
+				}
+			}
+		}
 	}
 }
 
-func chainRunOnce(s *Summary, c *chainCase, sp chainSplit) {
+func chainRunOnce(s *Summary, c *chainCase, sp chainSplit, outerPrefix string) {
 	n := len(c.Chain)
 	var cur *chainRun
 	hs := make([]rux.HandlerFunc, n)
@@ -330,7 +342,8 @@ func chainRunOnce(s *Summary, c *chainCase, sp chainSplit) {
 		hs[i] = mkHandler(&cur, i+1, c.Chain[i])
 	}
 	desc := func(aspect, what string) map[string]any {
-		return map[string]any{"kind": "chain", "aspect": aspect, "chain_len": n, "chain_kind": c.Kind, "split": fmt.Sprintf("%+v", sp), "what": what}
+		return map[string]any{"kind": "chain", "aspect": aspect, "chain_len": n, "chain_kind": c.Kind,
+			"split": fmt.Sprintf("%+v outer group prefix %q", sp, outerPrefix), "what": what}
 	}
 	var r *rux.Router
 	decoyMw := func(cx *rux.Context) { cur.log = append(cur.log, []any{"in", -1, cx.IsAborted()}) } // must never run for /x
@@ -353,17 +366,19 @@ func chainRunOnce(s *Summary, c *chainCase, sp chainSplit) {
 				return x[:k:k]
 			}
 			gB, gA := take(sp.gBefore), take(sp.gAfter)
-			outer, inner, inUse := take(sp.outer), take(sp.inner), take(sp.inUse)
+			outer, outUse, inner, inUse := take(sp.outer), take(sp.outUse), take(sp.inner), take(sp.inUse)
 			variadic, later := take(sp.variadic), take(sp.later)
 			for _, h := range gB { // one Use call per handler: the shared slice gets spare capacity
 				r.Use(h)
 			}
 			var rt *rux.Route
-			outerPrefix := "/g"
-			if (sp.gBefore+sp.later)%3 == 2 { // sometimes the outer group has the root prefix: it is a group all the same
-				outerPrefix, path = "/", "/h/x"
+			if outerPrefix != "/g" {
+				path = "/h/x"
 			}
 			r.Group(outerPrefix, func() {
+				for _, h := range outUse {
+					r.Use(h)
+				}
 				r.Group("/h", func() {
 					for _, h := range inUse { // one Use call per handler: the group chain gets spare capacity
 						r.Use(h)
@@ -611,7 +626,7 @@ func chainExecute(c *chainCase, sp chainSplit) *chainRun {
 	defer func() { chainRunHook = nil }()
 	cc := *c
 	cc.Log, cc.Under, cc.Escaped, cc.CheckW = nil, nil, nil, false
-	chainRunOnce(tmp, &cc, sp)
+	chainRunOnce(tmp, &cc, sp, []string{"/g", "/", ""}[(sp.outUse+sp.inner)%3])
 	return got
 }
 
